@@ -563,7 +563,7 @@ func TestVerif_C27(t *testing.T) {
 
 	fullNames := []string{"a", "b", "a/b", "b/c", "b/secret", "a/c", ".", "../x", "@ABS", "a/../../x"}
 	fullTargets := []string{".", "..", "a", "b", "b/secret", "a/..", "b/..", "../..", "../secret", "@ABS"}
-	redNames := []string{"a", "b", "a/b", "b/c", "b/secret"}
+	redNames := []string{"a", "a/b", "b/c", "b/secret"}
 	redTargets := []string{".", "..", "a", "b/secret", "../secret"}
 	full := c27Alphabet(fullNames, fullTargets)
 	red := c27Alphabet(redNames, redTargets)
@@ -581,15 +581,18 @@ func TestVerif_C27(t *testing.T) {
 	}
 	var fams []family
 	fams = append(fams, family{"depth1/full", [][]c27Entry{full}})
-	fams = append(fams, family{"depth2/full", [][]c27Entry{full, full}})
 	if r.Thorough() {
+		fams = append(fams, family{"depth2/full", [][]c27Entry{full, full}})
 		fams = append(fams, family{"depth3/full", [][]c27Entry{full, full, full}})
 		fams = append(fams, family{"depth4/reduced", [][]c27Entry{red, red, red, red}})
 		r.Info["bounds"] = "all archives of <= 3 entries over the full alphabet; all archives of 4 entries over the reduced alphabet"
 	} else {
+		// the families that can reach a violation with the fewest entries come first, so that a run cut short by the
+		// deadline on an overloaded machine still reports the same fingerprints
 		syms := c27Only(full, "s")
 		fams = append(fams, family{"depth3/reduced", [][]c27Entry{red, red, red}})
 		fams = append(fams, family{"depth3/symlink(full),symlink(full),file(reduced)", [][]c27Entry{syms, syms, c27Only(red, "f")}})
+		fams = append(fams, family{"depth2/full", [][]c27Entry{full, full}})
 		r.Info["bounds"] = "all archives of <= 2 entries over the full alphabet; depth 3: all archives over the reduced alphabet, and symlink(full),symlink(full),file(reduced names)"
 	}
 	n := 0
